@@ -13,7 +13,24 @@ UDP_TB = ["model Model/UDP.lean of service/udp.go (packetHandler.Handle, validat
 UDP_AS = ["SDK contract: shadowsocks.Pack(key, p) = salt ‖ seal(key, p) with a fresh random salt; Unpack opens exactly what Pack/the client sealed under the same key",
           "kernel contract: a socket from net.ListenPacket has a local port distinct from all open sockets; loopback delivery is in order"]
 
+AUTH_TB = ["models Model/CipherList.lean, Model/Auth.lean of service/cipher_list.go, service/tcp.go (authenticator), service/server_salt.go tied by the `tcpauth` differential campaign on the real authenticator",
+           "cryptography is a contract: which keys open a stream and which salts carry a server mark come from an independent spec-level implementation in the harness",
+           "Gen/Wiring.lean, Gen/Consts.lean, Gen/Ciphers.lean regenerated from source"]
+
 CHECKS = {
+    "C01": dict(
+        level="proof",
+        campaigns=[dict(engine="tcpauth", n=n(600, 12000))],
+        trusted_base=AUTH_TB,
+        assumptions=["KeySeparation (a stream sealed under one (cipher, secret) opens under no other) is an explicit hypothesis where attribution to 'exactly that key' is claimed",
+                     "each cipherList method is one critical section (C19 lock-set facts), so concurrent use is an interleaving of the modelled ops"],
+    ),
+    "C08": dict(
+        level="proof",
+        campaigns=[dict(engine="tcpauth", n=n(600, 12000))],
+        trusted_base=AUTH_TB,
+        assumptions=["HMAC-SHA1 is a parameter of the theorems; RNG freshness of the salt prefix is a contract (pairwise distinctness is checked empirically)"],
+    ),
     "C04": dict(
         level="proof",
         campaigns=[dict(engine="udp", n=n(150, 3000), netns=True)],
@@ -46,7 +63,7 @@ CHECKS = {
     ),
     "C07": dict(
         level="proof",
-        campaigns=[dict(engine="replay", n=n(1500, 30000), args={"ops": 200})],
+        campaigns=[dict(engine="replay", n=n(1500, 30000), args={"ops": 200}), dict(engine="tcpauth", n=n(400, 8000))],
         trusted_base=["model Model/Replay.lean of service/replay.go tied by the `replay` differential campaign",
                       "Gen/Consts.lean (MaxCapacity) regenerated from source"],
         assumptions=["ReplayCache.Add/Resize are each one critical section (C19 lock-set facts)",
